@@ -2510,7 +2510,7 @@ func (w *Wallet) GetTransactions(startBlock, endBlock *BlockIdentifier,
 				end = endHeader.Height
 			case *chain.BitcoindClient:
 				var err error
-				start, err = client.GetBlockHeight(endBlock.hash)
+				end, err = client.GetBlockHeight(endBlock.hash)
 				if err != nil {
 					return nil, err
 				}
